@@ -58,6 +58,9 @@ def main():
             try:
                 _f = os.environ.get("VERIF_NUMMODE")
                 _tb.NUMMODE = int(_f) if _f else _tb.nummode_of(c)
+                _j = os.environ.get("VERIF_JITTER")
+                _tb.JITTER = int(_j) if _j else _tb.jitter_of(c)
+                _tb._jit_counter[0] = 0
                 _h = os.environ.get("VERIF_PRECHIST")
                 _tb.PRECHIST = int(_h) if _h else _tb.prechist_of(c)
                 r = mod.run(c)
